@@ -20,4 +20,4 @@ print('baseline stable_pass:',len(base),'passing now:',len(base)-len(missing))
 for m in missing: print('MISSING',m)
 sys.exit(1 if missing else 0)
 PY
-rm -rf /repo/kernel/mock/data/tmp /repo/kernel/mock/p2pv2/node1/data/blockchain
+git -C /repo clean -fdq kernel/mock
